@@ -31,7 +31,7 @@ KINDS = [
 INVALID_ELEMS = [1, {}, {'jsonrpc': '2.0', 'method': 1, 'id': 7}, {'jsonrpc': '2.0', 'method': 'ok', 'params': None, 'id': 8},
                  {'jsonrpc': '2.0', 'method': 'ok', 'params': 0}]
 ID_ALPHABET = [1, '1', 0, '', -1, '__absent__', None]
-DISPS = ['sync', 'async', 'async-seq', 'async-wrapped', 'sync-custom', 'async-custom']
+DISPS = ['sync', 'async', 'async-seq', 'async-wrapped', 'sync-custom', 'async-custom', 'sync-mw', 'async-mw']
 
 
 def elem(kind, id):
@@ -150,7 +150,9 @@ def run_case(case, rec):
     # compositionality: an accepted batch equals its elements sent alone, in order
     accepted = isinstance(doc, list) and doc and all(request_object_class(e) != INVALID for e in doc) \
         and not ref.ids_duplicate(doc) and not (mbs and len(doc) > mbs) and mbs != 0
-    if accepted:
+    if accepted and case['part'] == 'e':
+        rec.nontrivial_n += 1         # long batches are judged by the reference model only
+    elif accepted:
         rec.nontrivial_n += 1
         singles, calls = [], []
         for e in doc:
